@@ -100,6 +100,9 @@ func (p *Path) global(g *ssa.Global) *Value {
 	cell := new(Value)
 	*cell = p.st().zero(g.Type().(*types.Pointer).Elem())
 	p.globals[g] = cell
+	if p.globalsFrozen && g.Pkg != nil && !strings.Contains(g.Pkg.Pkg.Path(), "/zzverif") && !strings.HasPrefix(g.Name(), "zz") {
+		p.freeze(cell, "package-level "+g.Pkg.Pkg.Name()+"."+g.Name(), map[interface{}]bool{})
+	}
 	return cell
 }
 
@@ -332,6 +335,7 @@ func (fr *frame) exec(ins ssa.Instruction) bool {
 		if ptr == nil {
 			p.fail("panic", "nil pointer dereference (store)")
 		}
+		p.checkWrite(ptr)
 		storeInto(ptr, fr.get(ins.Val))
 	case *ssa.If:
 		c := fr.get(ins.Cond).(*Term)
@@ -400,6 +404,7 @@ func (fr *frame) exec(ins ssa.Instruction) bool {
 		if m == nil {
 			p.fail("panic", "assignment to entry in nil map")
 		}
+		p.checkMapWrite(m)
 		p.mapUpdate(m, fr.get(ins.Key), copyVal(fr.get(ins.Value)))
 	case *ssa.TypeAssert:
 		fr.set(ins, fr.typeAssert(ins))
@@ -1061,6 +1066,19 @@ func (p *Path) callBuiltin(caller *frame, fn *ssa.Builtin, args []Value, site ss
 		if args[0] != nil {
 			dst = args[0].(Slice)
 		}
+		if len(p.frozenCells) > 0 && cap(dst) > len(dst) {
+			// an append that fits writes into the shared backing array
+			n := 0
+			switch src := args[1].(type) {
+			case Slice:
+				n = len(src)
+			case Str:
+				n = len(src.b)
+			}
+			if n > 0 {
+				p.checkWrite(&dst[:len(dst)+1][len(dst)])
+			}
+		}
 		switch src := args[1].(type) {
 		case Slice:
 			for _, v := range src {
@@ -1124,6 +1142,9 @@ func (p *Path) callBuiltin(caller *frame, fn *ssa.Builtin, args []Value, site ss
 		unsupportedf("cap of %T", args[0])
 	case "delete":
 		m, _ := args[0].(*Map)
+		if m != nil {
+			p.checkMapWrite(m)
+		}
 		p.mapDelete(m, args[1])
 		return nil
 	case "panic":
